@@ -113,7 +113,8 @@ whether or not it ever showed the entry: the tombstone must be retained there (o
 newer entry) and a tombstone that is new to the node must be in its next gossip batch -/
 def learn (conf : Conf) (tn : Int) (j : J) (n : Nat) (m : Msg Val) : J := Id.run do
   let mut j := j
-  if j.forged ∨ m.key.isEmpty then return j
+  -- a key-delete broadcast reaching a node that lacks the key is dropped as a whole (`curr.value == nil && deleted`)
+  if j.forged ∨ m.key.isEmpty ∨ m.deleted then return j
   let before := match getE (prevStore j n) m.key with | some e => ents e.val | none => []
   -- a value of another type under the key makes the merge fail as a whole: nothing is learned
   let kindOk := match getE (prevStore j n) m.key, m.val with
